@@ -94,8 +94,11 @@ ORACLES = {"history": o_history, "pop_arity": o_pop_arity, "program": o_program}
 
 
 def compile_history(inputs, ops):
-    """history -> program; every read is recorded with ⅛ (push to the global array). Scopes are λ…;† with literal arguments."""
+    """history -> program; every read is recorded with ⅛ (push to the global array). Scopes are λ…;† with literal arguments
+    (kind "lam": the body leaves 0 on its stack; kind "lamret": the body leaves its stack EMPTY, so the lambda's return value
+    is one more implicit read inside its scope, recorded after the call) or named functions @fN:k|…; called right away."""
     want, k = [], 0
+    uid = [0]
 
     def emit(ops_iter, scope):
         nonlocal k
@@ -115,11 +118,24 @@ def compile_history(inputs, ops):
                     want.append(cyc[j % len(cyc)] if cyc else 0); j += 1 if cyc else 0
             elif op[0] == "n":
                 args = list(op[1]); body = op[2]
-                inner = emit(body, args)
-                s += " ".join(map(str, args)) + " λ" + str(len(args)) + "|" + "_" * len(args) + inner + "0;†_"
-        return s
+                kind = op[3] if len(op) > 3 else "lam"
+                if kind == "fn":
+                    uid[0] += 1
+                    name = "f" + "abcdefghij"[uid[0] % 10] + "abcdefghij"[(uid[0] // 10) % 10]
+                    # the definition comes first, the reads happen at the call: emit the body into a side buffer
+                    inner, _ = emit(body, args)
+                    s += "@" + name + ":" + str(len(args)) + "|" + "_" * len(args) + inner + ";" + " ".join(map(str, args)) + " @" + name + ";"
+                elif kind == "lamret":
+                    inner, jj = emit(body, args)
+                    cyc = args
+                    s += " ".join(map(str, args)) + " λ" + str(len(args)) + "|" + "_" * len(args) + inner + ";†⅛"
+                    want.append(cyc[jj % len(cyc)] if cyc else 0)
+                else:
+                    inner, _ = emit(body, args)
+                    s += " ".join(map(str, args)) + " λ" + str(len(args)) + "|" + "_" * len(args) + inner + "0;†_"
+        return s, j
 
-    return emit(ops, None), want
+    return emit(ops, None)[0], want
 
 
 def run(ctx, widen=False):
@@ -153,10 +169,10 @@ def run(ctx, widen=False):
             elif r < 0.7:
                 ops.append(["i"])
             elif depth > 0:
-                ops.append(["n", [rng.randint(1, 9) for _ in range(rng.randint(0, 3))], rand_tree(depth - 1)])
+                ops.append(["n", [rng.randint(1, 9) for _ in range(rng.randint(0, 3))], rand_tree(depth - 1), rng.choice(["lam", "lamret", "lamret", "fn"])])
         return ops
     pcases = []
-    for _ in range(1500 if thorough else 250):
+    for _ in range(3000 if thorough else 600):
         ins = [rng.randint(1, 9) for _ in range(rng.randint(0, 4))]
         prog, want = compile_history(ins, rand_tree(2))
         pcases.append({"prog": prog, "inputs": ins, "want": want})
